@@ -262,6 +262,12 @@ def replay_case(case):
     esp = m("gbasis.evals.electrostatic_potential").electrostatic_potential
     cmp("electrostatic_potential", esp(shells2, P2, move(pts), move(chg_pos), np.abs(chg), threshold_dist=0.05),
         esp(shells, P, pts, chg_pos, np.abs(chg), threshold_dist=0.05))
+    if case["kind"] == "axis":
+        # an integer-typed lattice of points (np.mgrid): its image under the motion is a float array
+        ipts = np.array([[0, 0, 0], [1, 0, -1], [2, -1, 1], [-1, 1, 0]])
+        cmp("evaluate_density_gradient on an integer-typed lattice (vector law)", D.evaluate_density_gradient(P2, shells2, move(ipts)),
+            D.evaluate_density_gradient(P, shells, ipts) @ G.T)
+        cmp("evaluate_basis on an integer-typed lattice", ev(shells2, move(ipts)), R @ ev(shells, ipts))
     # points 1e-3 bohr from a nucleus (innermost shells of an atomic grid), no masking
     near = chg_pos[:2] + np.array([[6e-4, -5e-4, 6e-4], [-4e-4, 7e-4, 5e-4]])
     cmp("electrostatic_potential 1e-3 bohr from a nucleus", esp(shells2, P2, move(near), move(chg_pos), np.abs(chg)),
